@@ -9,11 +9,11 @@ BASE = ("cd /repo && /venv/bin/python -m pytest -ra -q -p no:cacheprovider --tim
 # id -> (technique, level text, level note, design ref)
 CHECKS = {
  "C01": ("runtime monitoring: reference-model oracle (exact-rational component resolver + rounding model) over reloaded CFF drawings of generated UFOs",
-         "Exploration: thousands of generated UFOs (hostile coordinates, nested/mirrored/sheared components, explicit fractional CFF width bases in fontinfo) compiled by the real compileOTF under every roundTolerance/cffVersion/optimizeCFF value; each reloaded glyph is compared with an independent exact-rational resolver. Held means: on all executions observed; nothing is claimed about inputs the generator never produced.",
+         "Exploration: thousands of generated UFOs (hostile coordinates, nested/mirrored/sheared components, explicit fractional CFF width bases in fontinfo, lib filters that must not change the drawing) compiled by the real compileOTF under every roundTolerance/cffVersion/optimizeCFF value; each reloaded glyph is compared with an independent exact-rational resolver. Held means: on all executions observed; nothing is claimed about inputs the generator never produced.",
          "Trusts fontTools' CFF reader and RecordingPen; coordinates |v|<=16000, <=14 glyphs, depth<=5; normal form of DESIGN 4.1/4.2.",
          "DESIGN.md section 5 C01, 4.1, 4.2"),
  "C02": ("runtime monitoring: structural + segment-wise Bezier-distance oracle over reloaded glyf data of generated UFOs; maxp recomputed by own DFS",
-         "Exploration: generated UFOs compiled by the real compileTTF (12 %: through compileInterpolatableTTFs as two identical masters) under random convertCubics/reverseDirection/flattenComponents/allQuadratic/cubicConversionError (down to 0.00005)/dropImpliedOnCurves settings, with the per-glyph public.truetype.overlap flag key on a third of the fonts; every reloaded glyph is matched point for point (lines, quadratics, on-curve end points, direction) against the exact-rational resolver, each converted cubic is measured against its quadratic run, composites are compared with the (flattened) reference component list, maxp is recomputed.",
+         "Exploration: generated UFOs compiled by the real compileTTF (12 %: through compileInterpolatableTTFs as two identical masters) under random convertCubics/reverseDirection/flattenComponents/allQuadratic/cubicConversionError (down to 0.00005)/dropImpliedOnCurves settings, with the per-glyph public.truetype.overlap flag key on a third of the fonts and cu2qu's curve_type marker in the lib of some cubic-free sources; every reloaded glyph is matched point for point (lines, quadratics, on-curve end points, direction) against the exact-rational resolver, each converted cubic is measured against its quadratic run, composites are compared with the (flattened) reference component list, maxp is recomputed.",
          "Trusts fontTools' glyf reader; distance bound conversionError*upm + sqrt(1/2) + 0.07; 2x2 entries > 2 (not storable) only counted.",
          "DESIGN.md section 5 C02, 4.3"),
  "C12": ("runtime monitoring: relation between executions (one UFO compiled under every optimizeCFF x subroutinizer x cffVersion combination; drawings, advances, layout bytes compared pairwise)",
@@ -41,7 +41,7 @@ CHECKS = {
          "Trusts fontTools' sfnt reader; Latin-1 feature-file-safe source names; uniqueness numbering scheme not prescribed.",
          "DESIGN.md section 5 C11"),
  "C05": ("runtime monitoring: GPOS interpreter (shaper semantics over the reloaded tables) against an independent UFO kerning lookup, per script tag, for every ordered glyph pair",
-         "Exploration: 700 generated multi-script UFOs (all four kerning precedence levels with deliberate exceptions, zero/fractional/negative values incl. exact half-step ties of both parities at quantisation 1/2/5/10, script sets that need repeated merging, missing glyphs, unknown groups, GDEF marks, languagesystems none/some/all, quantisation, both kern writers, writer objects that first served another font of other scripts); every ordered glyph pair is evaluated under every script tag by an interpreter of the compiled GPOS and compared with the UFO lookup (value, applied once, x-placement rule); three listed mechanisms are known findings, each re-exercised by a dedicated stratum.",
+         "Exploration: 700 generated multi-script UFOs (all four kerning precedence levels with deliberate exceptions, zero/fractional/negative values incl. exact half-step ties of both parities at quantisation 1/2/5/10, script sets that need repeated merging, missing glyphs, unknown groups, GDEF marks, languagesystems none/some/all, quantisation, both kern writers, writer objects that first served another font of other scripts, first-side classes mixing one left-to-right and one right-to-left letter); every ordered glyph pair is evaluated under every script tag by an interpreter of the compiled GPOS and compared with the UFO lookup (value, applied once, x-placement rule); three listed mechanisms are known findings, each re-exercised by a dedicated stratum.",
          "Trusts fontTools' GPOS/GDEF readers and unicodedata; shaper semantics of DESIGN section 3; quantifier of DESIGN 4.4.",
          "DESIGN.md section 5 C05, 4.4, section 6"),
  "C16": ("runtime monitoring: field-by-field reference oracle (independent fallback table) over reloaded name/OS2/hhea/head/post/CFF tables, plus an exhaustive sweep of every Unicode scalar through the PostScript-name normaliser",
@@ -49,7 +49,7 @@ CHECKS = {
          "Trusts fontTools' table readers; attributes without a destination in the listed tables are unchecked (listed in the evidence assumptions).",
          "DESIGN.md section 5 C16"),
  "C17": ("runtime monitoring: compiled feature text parsed back and compared with the user's statements (subsequence / marker-position oracle), GSUB bytes with vs without writers, writer call-order log",
-         "Exploration: 3000 generated feature files (languagesystems, classes, GSUB features, hand-written kern/mark/mkmk/curs/abvm/blwm/GDEF blocks (carets by position or by index) with the marker at top/middle/bottom/alone/mis-cased/twice, ordinary comments that merely contain the marker text) x writer lists (default, lib, explicit with ellipsis, skip/append, a harness GSUB writer placed last) compiled by the real compileTTF; the debug feature file is parsed back with feaLib and every user statement must survive in order, generated rules must sit at the marker, GSUB bytes must equal the no-writer compile, GSUB writers must run first (hook on BaseFeatureWriter.write).",
+         "Exploration: 3000 generated feature files (languagesystems, classes, GSUB features, hand-written kern/mark/mkmk/curs/abvm/blwm/GDEF blocks (carets by position or by index) with the marker at top/middle/bottom/alone/mis-cased/twice, ordinary comments that merely contain the marker text) x writer lists (default, lib, explicit with ellipsis - also with one positioning writer named in front of the ellipsis and again among the defaults -, skip/append, a harness GSUB writer placed last) compiled by the real compileTTF; the debug feature file is parsed back with feaLib and every user statement must survive in order, generated rules must sit at the marker, GSUB bytes must equal the no-writer compile, GSUB writers must run first (hook on BaseFeatureWriter.write).",
          "Trusts feaLib's parser/asFea round trip (checked per case) and fontTools' sfnt reader.",
          "DESIGN.md section 5 C17"),
  "C15": ("runtime monitoring: before/after snapshots of real filter applications compared through the exact-rational resolver (rendering invariance, matrix image, anchor-position closure)",
@@ -57,7 +57,7 @@ CHECKS = {
          "Exact for dyadic/integer inputs, 1e-9 relative otherwise; selection heuristics of anchor propagation deliberately not re-implemented.",
          "DESIGN.md section 5 C15"),
  "C06": ("runtime monitoring: GPOS interpreter (MarkBasePos / MarkLigPos / MarkMarkPos with lookup flags and filtering sets, later lookup wins) against anchor-difference candidates computed from the UFO",
-         "Exploration: 600 generated UFOs (marks with several attaching anchors, bases, ligatures with numbered anchors and gaps, mark-to-mark anchors, fractional coordinates, Indic code points for abvm/blwm incl. a second, possibly undeclared Indic script, roles by anchors / categories / user GDEF incl. base-classed glyphs that keep a paired mark anchor, groupMarkClasses, quantisation); every glyph pair (and every ligature component) is evaluated under every script tag with mark, mkmk, abvm, blwm active together; the final attachment must be one of the source-defined candidates, or absent when there is none.",
+         "Exploration: 600 generated UFOs (marks with several attaching anchors, bases, ligatures with numbered anchors and gaps, mark-to-mark anchors, fractional coordinates, Indic code points for abvm/blwm incl. a second, possibly undeclared Indic script, roles by anchors / categories / user GDEF incl. base-classed glyphs that keep a paired mark anchor, stale user-written markClass statements under the writer's own class names, groupMarkClasses, quantisation); every glyph pair (and every ligature component) is evaluated under every script tag with mark, mkmk, abvm, blwm active together; the final attachment must be one of the source-defined candidates, or absent when there is none.",
          "Trusts fontTools' GPOS/GDEF readers; shaper semantics of DESIGN section 3; only the mark (and GDEF) writer runs.",
          "DESIGN.md section 5 C06, section 6"),
  "C13": ("runtime monitoring: relation between executions (with / without the skip list) over reloaded outlines, order, cmap, metrics and GPOS results evaluated by the interpreter",
@@ -73,7 +73,7 @@ CHECKS = {
          "Glyph state = outline, components, anchors, metrics, unicodes, lib; over-reporting only counted.",
          "DESIGN.md section 5 C14, 2.3"),
  "C08": ("runtime monitoring: per-table sha256 digests of saved fonts compared across fresh interpreters started with different PYTHONHASHSEED values and across library / memory-vs-disk / inplace / call-history variants",
-         "Exploration: 64 cases (10 repository fixtures + generated layout-heavy UFOs incl. the groupMarkClasses option with a deliberate colouring tie, outline UFOs with lib filters incl. colliding propagated anchor names and a mark-of-marks composite whose curve component's control box exceeds its outline box, contextual anchors, generated designspaces, one case whose ftConfig option object asking for GPOS compaction is shared by every call) each compiled in 4 fresh interpreters (PYTHONHASHSEED 0-3; thorough: 8) under {defcon, ufoLib2} x {in memory, saved and re-opened} x {first call, second call on the same objects, after another compile function, inplace=True}; all digests of one (case, function, options) must be equal, a mismatch is localised to the table. ufo2ft has no threads: hash order and call history are the only schedules.",
+         "Exploration: 64 cases (10 repository fixtures + generated layout-heavy UFOs incl. the groupMarkClasses option with a deliberate colouring tie, outline UFOs with lib filters incl. colliding propagated anchor names and a mark-of-marks composite whose curve component's control box exceeds its outline box, contextual anchors, generated designspaces, one case whose ftConfig option object asking for GPOS compaction is shared by every call, one with unlisted glyph names that differ in case only; SOURCE_DATE_EPOCH default / 0 / 86400 per case) each compiled in 4 fresh interpreters (PYTHONHASHSEED 0-3; thorough: 8) under {defcon, ufoLib2} x {in memory, saved and re-opened} x {first call, second call on the same objects, after another compile function, inplace=True}; all digests of one (case, function, options) must be equal, a mismatch is localised to the table. ufo2ft has no threads: hash order and call history are the only schedules.",
          "SOURCE_DATE_EPOCH pinned; head checksum masked; complete public.glyphOrder except in the per-library stratum.",
          "DESIGN.md section 5 C08"),
  "C19": ("runtime monitoring: closed-form variation reference (exact rationals, independent of varLib/fontMath) against real Instantiator instances; deep before/after snapshots of all sources; repeated generation from one instantiator",
@@ -81,11 +81,11 @@ CHECKS = {
          "Closed forms cover the layouts listed in the evidence assumptions; exact ties accept both neighbours only where the statement does not fix the rounding mode.",
          "DESIGN.md section 5 C19, section 3 R-var, 4.5"),
  "C09": ("runtime monitoring: structural comparison of the produced master fonts glyph by glyph (contours, end points, on/off flags, component lists with their 2x2 parts, drawn CFF path operations), sparse-master glyph-set bounds, with a per-master control compile that counts would-be divergences",
-         "Exploration: 1200 generated compatible master families (per-master exaggerated curvature so that a per-master cu2qu diverges - measured by the control -, per-master component 2x2 differences in a single random entry, sparse layer masters - also hosted in a separate UFO - with nested composites) through compileInterpolatableTTFs / TTFsFromDS / OTFsFromDS with flattenComponents, skipExportGlyphs, custom filters and optimizeCFF 1-2 on the OTF path; every glyph must have identical point structure in all masters that contain it; sparse masters (incl. sources that omit a default-valued axis) must hold '.notdef', the layer's glyphs and only glyphs tied to them by component references, and every glyph decomposed in the full masters that contains a layer glyph must be decomposed there too.",
+         "Exploration: 1200 generated compatible master families (per-master exaggerated curvature so that a per-master cu2qu diverges - measured by the control -, per-master component 2x2 differences in a single random entry, sparse layer masters - also hosted in a separate UFO - with nested composites) through compileInterpolatableTTFs / TTFsFromDS / OTFsFromDS with flattenComponents, skipExportGlyphs, custom filters (as an argument or declared in every master's lib) and optimizeCFF 1-2 on the OTF path; every glyph must have identical point structure in all masters that contain it; sparse masters (incl. sources that omit a default-valued axis) must hold '.notdef', the layer's glyphs and only glyphs tied to them by component references, and every glyph decomposed in the full masters that contains a layer glyph must be decomposed there too.",
          "Masters compatible by construction; placeholder glyphs of sparse masters exempt from the structure comparison.",
          "DESIGN.md section 5 C09"),
  "C10": ("runtime monitoring: the compiled variable font is evaluated at every master location by fontTools' instancer (trusted reader) and compared with the interpolatable master (outlines, advances) and - through the GPOS interpreter - with that master's kerning and anchor data",
-         "Exploration: 800 generated compatible families (1-2 axes, intermediate and sparse masters, axis maps, aligned / ragged per-master kerning with exceptions, kerning groups present in one master only, lib categories with base-mark kerning, per-master anchors) through compileVariableTTF / compileVariableCFF2 (10 %: compileVariableTTFs / CFF2s on a designspace defining the whole space plus single-axis variable fonts that use a subset of the shuffled sources) with variableFeatures on and off, plus a pre-filter stratum (PropagateAnchors: the master compiled alone with the same filter is the reference for attachments that exist only after the filter); at each full master's location outlines and advances must be within one unit of the interpolatable master with identical point structure, kerning must equal the master's UFO lookup and mark attachment one of the master's anchor candidates (exact, +-1 / +-2 only for masters strictly inside another master's support).",
+         "Exploration: 800 generated compatible families (1-2 axes, intermediate and sparse masters, axis maps, aligned / ragged per-master kerning with exceptions, kerning groups present in one master only, lib categories with base-mark kerning, per-master anchors) through compileVariableTTF / compileVariableCFF2 (10 %: compileVariableTTFs / CFF2s on a designspace defining the whole space plus single-axis variable fonts that use a subset of the shuffled sources; 5 %: a single variable font covering a sub-range of the axis with its own default) with variableFeatures on and off, plus a pre-filter stratum (PropagateAnchors: the master compiled alone with the same filter is the reference for attachments that exist only after the filter); at each full master's location outlines and advances must be within one unit of the interpolatable master with identical point structure, kerning must equal the master's UFO lookup and mark attachment one of the master's anchor candidates (exact, +-1 / +-2 only for masters strictly inside another master's support).",
          "Trusts fontTools.varLib.instancer; kerning judged for pairs where the static compile of the master alone already gives the UFO value (C05 covers the rest).",
          "DESIGN.md section 5 C10, 4.5, section 6"),
 }
